@@ -1,3 +1,4 @@
+pub mod c01;
 pub mod c02;
 pub mod c03;
 pub mod c05;
@@ -16,6 +17,7 @@ use crate::engine::Tier;
 /// returns the process exit code
 pub fn run(prop: &str, tier: Tier, seed: u64) -> i32 {
     match prop {
+        "C01" => c01::run(tier, seed),
         "C02" => c02::run(tier, seed),
         "C03" => c03::run(tier, seed),
         "C05" => c05::run(tier, seed),
@@ -44,6 +46,7 @@ pub fn replay(prop: &str, path: &str) -> i32 {
         return 2;
     };
     match prop {
+        "C01" => c01::replay(&doc),
         "C02" => c02::replay(&doc),
         "C03" => c03::replay(&doc),
         "C05" => c05::replay(&doc),
